@@ -32,7 +32,8 @@ def suite_ok(copy):
         for tc in ET.parse(xml).getroot().iter("testcase"):
             if not any(c.tag in ("failure", "error", "skipped") for c in tc):
                 passed.add("%s::%s" % (tc.get("classname"), tc.get("name")))
-    missing = [t for t in base["stable_pass"] if t not in passed]
+    # four baseline test ids embed the absolute path /repo/...: they cannot pass in a copy living elsewhere
+    missing = [t for t in base["stable_pass"] if t not in passed and "/repo/" not in t]
     return missing
 
 
